@@ -195,6 +195,7 @@ type Exec struct {
 	anchorResults []Val
 	anchorArgs    []Val
 	activeProp    string // the property being checked (clauses labelled for other properties only are inactive)
+	closureTop    bool // a function literal of the top function is being verified on its own (anchors fire inside it)
 	firedAnchors  map[*Anchored]bool // anchored clauses that were reached on some path
 	lastWitness   map[string]Val // ghost witnesses of the contract call just made (for after-call anchors)
 	inGoal    int
